@@ -4,10 +4,10 @@ import vcheck as V
 LEVEL = "proof"
 PROP_FILE = "Properties_C08.v"
 RULE = ("cases = EncodeSymbols on arrays of 1..1e5 symbols (uniform / skewed / constant / single-outlier / all-distinct / "
-        "two-valued / zipf / bit-length ramp; values up to 2^20, a few up to 2^22; components 1..4; levels 0..10 and unset; "
+        "two-valued / zipf / bit-length ramp; values mostly below 2^20, some up to 2^32-1 (the 31/32-bit edge included); components 1..4; levels 0..10 and unset; "
         "forced tagged, forced raw, automatic), DecodeSymbols on the produced bytes + sentinel and on truncated / corrupted / "
         "re-laid-out (pre-2.0) / random bytes, RAnsSymbolEncoder<N>/RAnsSymbolDecoder<N> for N = 1..18 on histogram and "
-        "adversarial frequency tables; a case is distinct by its text; all cases run the coder, so all count as non-trivial")
+        "adversarial frequency tables, two-symbol dyadic tables sweeping the 1/2/3-byte tail boundaries, Create alone on frequencies up to 2^58; a case is distinct by its text; all cases run the coder, so all count as non-trivial")
 
 def corr_runs(ctx):
     return [dict(tag="h_C08", harness="C08", driver="C08", args=[ctx.tier, ctx.seed],
